@@ -126,18 +126,24 @@ def customOk (cfg : Cfg) (p : Bytes) (start : Nat) : Res Bool := do
 def bitOr (a b : Nat) : Nat := a ||| b
 def bitAnd (a b : Nat) : Nat := a &&& b
 
-/-- everything after the three reads: `payload` has the announced length, `extra` tells whether a trailing byte exists -/
-def body (cfg : Cfg) (payload : Bytes) (extra : Bool) : Res Verdict := do
-  if extra then return .no
-  let total := payload.length
-  let start ← findCRLF payload (payload.length + 1) 0
-  let hasCookie ← cookieOk cfg payload start
-  if !hasCookie ∧ (!cfg.cookieHash.isEmpty ∨ cfg.hasCookieRe) then return .no
-  let hasToken ← if !hasCookie then tokenOk cfg payload start else pure false
-  if !hasToken ∧ (cfg.hasIPs ∨ !cfg.cookiePorts.isEmpty) then return .no
-  let hasCustom ← if !(hasCookie || hasToken) then customOk cfg payload start else pure false
-  if !hasCustom ∧ (!cfg.customInfo.isEmpty ∨ cfg.hasCustomRe) then return .no
-  if start > 0 ∧ !hasCookie ∧ !hasToken ∧ !hasCustom then return .no
+/-- the RDP_NEG_CORRELATION_INFO block at `cs` (present when the request's flags announce it) -/
+def corrPart (payload : Bytes) (cs total : Nat) : Res Verdict := do
+  if cs + l4rdp_RDPCorrInfoBytesTotal > total then return .no
+  let ci ← slice payload cs (cs + l4rdp_RDPCorrInfoBytesTotal) "rdp.payloadBuf[corrinfo]"
+  -- RDPCorrInfo (little endian): Type u8, Flags u8, Length u16, Identity [16], Reserved [16]
+  let cty := (ci.getD 0 0).toNat
+  let cfl := (ci.getD 1 0).toNat
+  let clen := leNat ((ci.drop 2).take 2)
+  let ident := (ci.drop 4).take 16
+  let resv := (ci.drop 20).take 16
+  if cty ≠ l4rdp_RDPCorrInfoType ∨ cfl ≠ l4rdp_RDPCorrInfoFlags ∨ clen ≠ l4rdp_RDPCorrInfoLength ∨
+      (ident.headD 0).toNat = l4rdp_RDPCorrInfoReserved ∨ (ident.headD 0).toNat = l4rdp_RDPCorrInfoIdentityF4 then return .no
+  if ident.any (fun b => b.toNat = l4rdp_ASCIIByteCR) then return .no
+  if resv.any (fun b => b.toNat ≠ l4rdp_RDPCorrInfoReserved) then return .no
+  return .yes
+
+/-- the optional RDP_NEG_REQ at `start` and what follows it -/
+def negPart (payload : Bytes) (start total : Nat) : Res Verdict := do
   if start = total then return .yes
   if start + l4rdp_RDPNegReqBytesTotal > total then return .no
   let r ← slice payload start (start + l4rdp_RDPNegReqBytesTotal) "rdp.payloadBuf[negreq]"
@@ -153,20 +159,29 @@ def body (cfg : Cfg) (payload : Bytes) (extra : Bool) : Res Verdict := do
     return .no
   if bitAnd flags l4rdp_RDPNegReqFlagCorrInfo = 0 then
     return (if start + l4rdp_RDPNegReqBytesTotal < total then .no else .yes)
-  let cs := start + l4rdp_RDPNegReqBytesTotal
-  if cs + l4rdp_RDPCorrInfoBytesTotal > total then return .no
-  let ci ← slice payload cs (cs + l4rdp_RDPCorrInfoBytesTotal) "rdp.payloadBuf[corrinfo]"
-  -- RDPCorrInfo (little endian): Type u8, Flags u8, Length u16, Identity [16], Reserved [16]
-  let cty := (ci.getD 0 0).toNat
-  let cfl := (ci.getD 1 0).toNat
-  let clen := leNat ((ci.drop 2).take 2)
-  let ident := (ci.drop 4).take 16
-  let resv := (ci.drop 20).take 16
-  if cty ≠ l4rdp_RDPCorrInfoType ∨ cfl ≠ l4rdp_RDPCorrInfoFlags ∨ clen ≠ l4rdp_RDPCorrInfoLength ∨
-      (ident.headD 0).toNat = l4rdp_RDPCorrInfoReserved ∨ (ident.headD 0).toNat = l4rdp_RDPCorrInfoIdentityF4 then return .no
-  if ident.any (fun b => b.toNat = l4rdp_ASCIIByteCR) then return .no
-  if resv.any (fun b => b.toNat ≠ l4rdp_RDPCorrInfoReserved) then return .no
-  return .yes
+  corrPart payload (start + l4rdp_RDPNegReqBytesTotal) total
+
+/-- the token block is only looked at when no cookie was found -/
+def tokenStep (cfg : Cfg) (p : Bytes) (start : Nat) (hasCookie : Bool) : Res Bool :=
+  if !hasCookie then tokenOk cfg p start else pure false
+
+/-- the custom-info block is only looked at when neither a cookie nor a token was found -/
+def customStep (cfg : Cfg) (p : Bytes) (start : Nat) (hasCookie hasToken : Bool) : Res Bool :=
+  if !(hasCookie || hasToken) then customOk cfg p start else pure false
+
+/-- everything after the three reads: `payload` has the announced length, `extra` tells whether a trailing byte exists -/
+def body (cfg : Cfg) (payload : Bytes) (extra : Bool) : Res Verdict := do
+  if extra then return .no
+  let total := payload.length
+  let start ← findCRLF payload (payload.length + 1) 0
+  let hasCookie ← cookieOk cfg payload start
+  if !hasCookie ∧ (!cfg.cookieHash.isEmpty ∨ cfg.hasCookieRe) then return .no
+  let hasToken ← tokenStep cfg payload start hasCookie
+  if !hasToken ∧ (cfg.hasIPs ∨ !cfg.cookiePorts.isEmpty) then return .no
+  let hasCustom ← customStep cfg payload start hasCookie hasToken
+  if !hasCustom ∧ (!cfg.customInfo.isEmpty ∨ cfg.hasCustomRe) then return .no
+  if start > 0 ∧ !hasCookie ∧ !hasToken ∧ !hasCustom then return .no
+  negPart payload start total
 
 /-- header checks; returns the payload length to read -/
 def header (h : Bytes) : Res (Option Nat) := do
